@@ -1,9 +1,9 @@
 //! C02 — document state equals the op-based CRDT interpretation of its history.
-use crate::fw::*;
-use crate::gen::{Profile, World};
-use crate::obs::{enc_name, first_diff, fingerprint, observe};
-use crate::refint::ref_snapshot;
-use crate::util::*;
+use amv::fw::*;
+use amv::gen::{Profile, World};
+use amv::obs::{enc_name, first_diff, fingerprint, observe};
+use amv::refint::ref_snapshot;
+use amv::util::*;
 use serde_json::json;
 
 pub struct C02;
